@@ -194,3 +194,11 @@ def run(cx):
         b = cx.fn(fn)
         if b:
             cx.expect('EXPR', '::'.join(fn.split('::')[-2:]), cx.retval(b), pat, what, where=b.file)
+
+
+def run_thorough(cx):
+    """thorough tier: the generic evaluators this property relies on must fire on their positive fixture twins"""
+    from rules import fixture_check as FX
+    FX.enc(cx)
+    from vpa import witness as W
+    W.check(cx, ['C18AngleIntervalPrivate'])
